@@ -97,4 +97,58 @@ fn lazy_h<T: 'static>(kind: usize, depth: usize) {
     core::mem::forget(dst);
 }
 
+/// splice whose replacement items are lazy clones of elements of another vector: each written
+/// replacement is exactly one clone of its source (not a bitwise copy of it)
+pub struct LazyRepl<'a, T: AnyValueCloneable> { pub a: Option<LazyClone<'a, T>>, pub b: Option<LazyClone<'a, T>> }
+impl<'a, T: AnyValueCloneable + AnyValue> Iterator for LazyRepl<'a, T> {
+    type Item = LazyClone<'a, T>;
+    fn next(&mut self) -> Option<LazyClone<'a, T>> {
+        callout_invariant();
+        if self.a.is_some() { self.a.take() } else { self.b.take() }
+    }
+}
+impl<'a, T: AnyValueCloneable + AnyValue> ExactSizeIterator for LazyRepl<'a, T> {
+    fn len(&self) -> usize { self.a.is_some() as usize + self.b.is_some() as usize }
+}
+
+fn lazy_splice_h<T: 'static>() {
+    ghost_init();
+    let (len, cap) = sym_state();
+    let mut v = unsafe { mk_vec::<dyn Cloneable, T>(0, len, cap, false, true) };
+    reg(&v, 0);
+    let (len_b, cap_b) = sym_state();
+    kani::assume(len_b >= 2);
+    let other = unsafe { mk_vec::<dyn Cloneable, T>(1, len_b, cap_b, false, true) };
+    reg(&other, 1);
+    let esz = size_of::<T>();
+    let j = any_narrow();
+    kani::assume(j + 1 < len_b);
+    tok_init(TW, esz);
+    tok_place(TW, base(1) + j * esz);
+    tok_init(TC, esz);
+    let start = any_narrow();
+    let end = any_narrow();
+    kani::assume(start <= end && end <= len);
+    {
+        let (e0, e1) = (other.at(j), other.at(j + 1));
+        let repl = LazyRepl { a: Some(e0.lazy_clone()), b: Some(e1.lazy_clone()) };
+        kani::assert(g().n_clone_calls == 0, "C09: building lazy clones clones nothing");
+        drop(v.splice(start..end, repl));
+    }
+    kani::assert(g().n_clone_calls == 2 && g().total_cloned == 2, "C09: splice clones each lazy replacement exactly once");
+    kani::assert(g().in_count == 0, "C09: a lazy replacement is cloned into place, never copied bitwise");
+    kani::assert(v.len() == len - (end - start) + 2 && other.len() == len_b, "lazy splice: lengths as Vec::splice, source untouched");
+    if esz != 0 {
+        let (n, p, a, d, o) = obs(TW, 1, len_b, j);
+        kani::assert(n == 1 && p == j && d == 0 && o == 0 && g().t[TW].cloned == 1 && tok_visible_in(TW, 0, v.len()).0 == 0,
+            "C09: the source element is cloned once, unchanged, and not aliased by the destination");
+        let (n, p, a, d, o) = obs(TC, 0, v.len(), start);
+        kani::assert(n == 1 && p == start, "C09: its clone is the first replacement, at start");
+    }
+    kani::cover!(start < end && end < len, "COV inner range");
+    kani::cover!(true, "REACHED");
+    core::mem::forget(v);
+    core::mem::forget(other);
+}
+
 include!("k2_lazy.inst.rs");
